@@ -59,7 +59,7 @@ def main():
 
         # ---- proof side -------------------------------------------------------------------------
         broken = []                                  # names of obligations / streams that no longer check
-        ok_props, log_props = lean.build(["Cinco.Props." + prop])
+        ok_props, log_props = lean.build(lean.targets_of(prop))
         ok_drv, log_drv = lean.build(["driver"])
         axioms = {}
         if ok_props:
